@@ -72,6 +72,9 @@ pub struct Space<'a> {
     pub thorough: bool,
     /// also all pairs of fields over the first values of their alphabets (C05/C06 thorough)
     pub pairs: bool,
+    /// also a packed body of >= 16384 bytes (three-byte length prefix) per repeated numeric field
+    /// (C05 only: the other checks enumerate per byte or per element of the encoding; C06 with it took 190 s)
+    pub huge: bool,
 }
 
 impl<'a> Space<'a> {
@@ -118,6 +121,9 @@ impl<'a> Space<'a> {
                     // a packed body longer than 127 bytes (two-byte length prefix)
                     let big = &sc[sc.len() - 1];
                     v.push(PF::Rep(vec![big.clone(); 140]));
+                    if self.huge && !matches!(f.ty.as_str(), "string" | "bytes") {
+                        v.push(PF::Rep(vec![big.clone(); 16400]));
+                    }
                 }
                 v
             }
